@@ -156,10 +156,11 @@ class PatternPRF:
         def prf(s, n=None):
             vals = real(s, n)
             mode = world.mask_pattern
-            if bound > 64 and bound & (bound - 1) and _in_is_zero_public():
+            if bound.bit_length() // world.cfg['sec_param'] >= 2 and _in_is_zero_public():
                 world.blinding_forced = getattr(world, 'blinding_forced', 0) + 1
                 return 1 if n is None else [1] * n
-            if mode in ('zero', 'max') and bound & (bound - 1) == 0 and bound > 1:
+            if mode in ('zero', 'max') and bound & (bound - 1) == 0 and bound > 1 and world.pattern_budget > 0:
+                world.pattern_budget -= 1      # Las-Vegas retry loops over binary fields must end
                 v = 0 if mode == 'zero' else bound - 1
                 if n is None:
                     return v
@@ -185,6 +186,7 @@ def make_world(m, t, no_prss, k):
     seams = []
     for i, u in enumerate(world.universes):
         s = sp.ScriptSecrets(party=i, multi=m > 1)
+        s.sec_param = k
         u.rtmod.secrets = s
         u.thresha.secrets = s
         seams.append(s)
@@ -193,6 +195,7 @@ def make_world(m, t, no_prss, k):
         u.thresha.PRF = PatternPRF(u.thresha._verif_real_PRF, world)
     world.script_seams = seams
     world.mask_pattern = 'seeded'
+    world.pattern_budget = 0
     return world
 
 
@@ -266,6 +269,7 @@ def run_mp(pid, job, build, base_k=4, batch=24, patterns=('seeded', 'zero', 'max
             def setup(w):
                 ctxs.clear()
                 w.mask_pattern = pat
+                w.pattern_budget = 40 * len(chunk) * m
                 for i, s in enumerate(seams):
                     s.begin(pat, job['seed'] * 100 + i, None)
                 for p in range(m):
